@@ -310,6 +310,7 @@ func runC03(rc *RunCtx) {
 			rc.Cov.Cell("C03_singleton_lengths", fmt.Sprintf("%s@%d", maskName(mask), l))
 		}
 	}
+	c03NearMisses(rc)
 	ProbeHistory(rc, rc.Pick(200, 800), false)
 	// hostile history on top
 	for h := 0; h < rc.Pick(1, 3); h++ {
@@ -318,6 +319,90 @@ func runC03(rc *RunCtx) {
 			RunHistory(e, NewGen(e), rc.Pick(300, 1500), 0)
 		}
 	}
+}
+
+// c03NearMisses: a valid module-addressed message naming the submitter as destination caller, with one 32-byte word
+// (destination caller, sender = token messenger, burn token, recipient) replaced by a word that differs from the right
+// one in two bytes changed alike (xor 0x01 / 0xff), in a compensating +1/-1 pair, or in two bytes exchanged, at byte
+// distances 1, 2, 4, 8, 12, 16, 20, 24. Equality of words is equality of every byte; the model judges each case, the
+// unmodified message must be received before and after.
+func c03NearMisses(rc *RunCtx) {
+	e, err := c03Engine(rc, false, false)
+	if err != nil {
+		rc.Cov.Inconclusive("c03 near-miss engine: " + err.Error())
+		return
+	}
+	from := Acct(UserIx)
+	nonce := uint64(7_700_000 + rc.Shard*100000)
+	mk := func() *InMsg {
+		nonce++
+		in := StdInbound(nonce, 1, big.NewInt(11))
+		in.Caller = ref.Pad32(addrBytes(from))
+		return in
+	}
+	control := func(phase string) {
+		raw := mk().Bytes()
+		r := e.Exec(Tx{Msgs: msgs1(&ct.MsgReceiveMessage{From: from, Message: raw, Attestation: e.Attest(raw, 0)}), Note: "C03 near misses: the unmodified message (" + phase + ")"})
+		rc.Cov.Cell("C03_near_misses", "control/"+phase+"/"+okWord(r.OK))
+	}
+	control("before")
+	idx := 0
+	for _, site := range []string{"caller", "messenger", "burn-token", "recipient"} {
+		for _, d := range []int{1, 2, 4, 8, 12, 16, 20, 24} {
+			for i := 0; i+d < 32; i++ {
+				j := i + d
+				for kind := 0; kind < 4; kind++ {
+					idx++
+					if idx%rc.NShards != rc.Shard {
+						continue
+					}
+					in := mk()
+					var w []byte
+					switch site {
+					case "caller":
+						w = in.Caller
+					case "messenger":
+						w = in.Sender
+					case "burn-token":
+						w = in.Body[4:36]
+					default:
+						w = in.Recipient
+					}
+					w2 := append([]byte(nil), w...)
+					name := ""
+					switch kind {
+					case 0:
+						w2[i], w2[j], name = w2[i]^0x01, w2[j]^0x01, "xor-01-pair"
+					case 1:
+						w2[i], w2[j], name = w2[i]^0xff, w2[j]^0xff, "xor-ff-pair"
+					case 2:
+						w2[i], w2[j], name = w2[i]+1, w2[j]-1, "plus-minus-pair"
+					default:
+						w2[i], w2[j], name = w2[j], w2[i], "exchanged-pair"
+					}
+					if string(w2) == string(w) {
+						continue
+					}
+					switch site {
+					case "caller":
+						in.Caller = w2
+					case "messenger":
+						in.Sender = w2
+					case "burn-token":
+						in.Body = append([]byte(nil), in.Body...)
+						copy(in.Body[4:36], w2)
+					default:
+						in.Recipient = w2
+					}
+					raw := in.Bytes()
+					r := e.Exec(Tx{Msgs: msgs1(&ct.MsgReceiveMessage{From: from, Message: raw, Attestation: e.Attest(raw, idx%3)}),
+						Note: fmt.Sprintf("C03 near misses: %s differs from the right word in bytes %d and %d (%s)", site, i, j, name)})
+					rc.Cov.Cell("C03_near_misses", fmt.Sprintf("%s/%s/distance-%d/%s", site, name, d, okWord(r.OK)))
+				}
+			}
+		}
+	}
+	control("after")
 }
 
 func init() {
@@ -331,6 +416,9 @@ func init() {
 			var miss []string
 			if len(c.Matrix["C03_subsets_module"]) < 500 || len(c.Matrix["C03_subsets_other"]) < 30 {
 				miss = append(miss, fmt.Sprintf("subsets executed: module %d, other %d", len(c.Matrix["C03_subsets_module"]), len(c.Matrix["C03_subsets_other"])))
+			}
+			if c.Matrix["C03_near_misses"]["control/after/succeeded"] == 0 || len(c.Matrix["C03_near_misses"]) < 100 {
+				miss = append(miss, fmt.Sprintf("near-miss words: %d cells, control %d", len(c.Matrix["C03_near_misses"]), c.Matrix["C03_near_misses"]["control/after/succeeded"]))
 			}
 			if c.Matrix["C03_subsets_module"]["none/ok"] == 0 || c.Matrix["C03_subsets_other"]["none/ok"] == 0 {
 				miss = append(miss, "the empty subset (everything true) never succeeded")
